@@ -1,6 +1,7 @@
 """C20 — baseline and reporting windows never leak across the intervention.
 Model: coq/Model/Windows.v; theorems: coq/Properties/C20.v; tie: correspondence (this file)."""
 import copy
+import random
 import json
 import warnings
 from datetime import timedelta
@@ -49,7 +50,13 @@ def gen_dataset(rng, k):
         cells = [None if rng.random() < pnan else (1000 * (c + 1) + i) for c in range(ncol)]
         rows.append((t, cells))
     tz = rng.choice(["UTC", "US/Pacific", "Europe/Berlin", "Australia/Sydney"])
-    return {"kind": kind, "rows": rows, "ncol": ncol, "tz": tz, "series": ncol == 1 and rng.random() < 0.7}
+    ds = {"kind": kind, "rows": rows, "ncol": ncol, "tz": tz, "series": ncol == 1 and rng.random() < 0.7}
+    # representation dimensions (the model sees the same instants and values whatever they are)
+    r2 = random.Random(rng.random())
+    ds["unit"] = r2.choice(["ns", "ns", "us", "ms", "s"])
+    ds["dtype"] = r2.choice(["float64", "float64", "float32", "int64", "object"])
+    ds["stamp"] = r2.choice(["ts", "ts", "py"])
+    return ds
 
 
 def cut_instants(rng, rows):
@@ -99,11 +106,26 @@ def build_frame(ds):
     idx = pd.DatetimeIndex(pd.to_datetime([r[0] for r in ds["rows"]], utc=True)).tz_convert(ds["tz"])
     cols = {"c%d" % c: [np.nan if r[1][c] is None else float(r[1][c]) for r in ds["rows"]] for c in range(ds["ncol"])}
     df = pd.DataFrame(cols, index=idx, dtype=float)
+    unit = ds.get("unit", "ns")
+    if unit != "ns":
+        df.index = df.index.as_unit(unit)
+    dt = ds.get("dtype", "float64")
+    if dt == "float32":
+        df = df.astype("float32")
+    elif dt == "object":
+        df = df.astype(object)
+    elif dt == "int64" and not df.isna().any().any() and len(df):
+        df = df.astype("int64")
     return df["c0"] if ds["series"] else df
 
 
-def stamp(ns, tz):
-    return None if ns is None else pd.Timestamp(ns, unit="ns", tz="UTC").tz_convert(tz)
+def stamp(ns, tz, how="ts"):
+    if ns is None:
+        return None
+    t = pd.Timestamp(ns, unit="ns", tz="UTC").tz_convert(tz)
+    if how == "py" and ns % 1000 == 0:
+        return t.to_pydatetime()            # a plain datetime.datetime carrying the same instant
+    return t
 
 
 def run_impl(ds, call):
@@ -111,15 +133,16 @@ def run_impl(ds, call):
     data = build_frame(ds)
     before = data.copy(deep=True)
     tz = ds["tz"]
+    how = ds.get("stamp", "ts")
     try:
         if call["which"] == "baseline":
             out, warns = transform.get_baseline_data(
-                data, start=stamp(call["other"], tz), end=stamp(call["cut"], tz), max_days=call["max_days"],
+                data, start=stamp(call["other"], tz, how), end=stamp(call["cut"], tz, how), max_days=call["max_days"],
                 allow_billing_period_overshoot=call["overshoot"], n_days_billing_period_overshoot=call["n_over"],
                 ignore_billing_period_gap_for_day_count=call["ignore_gap"])
         else:
             out, warns = transform.get_reporting_data(
-                data, start=stamp(call["cut"], tz), end=stamp(call["other"], tz), max_days=call["max_days"],
+                data, start=stamp(call["cut"], tz, how), end=stamp(call["other"], tz, how), max_days=call["max_days"],
                 allow_billing_period_overshoot=call["overshoot"],
                 ignore_billing_period_gap_for_day_count=call["ignore_gap"])
     except Exception as e:  # noqa
@@ -310,6 +333,7 @@ def process(run, items):
         run.count((vlib.sha(ds["rows"]), vlib.sha(call)), nontrivial)
         run.dist("outcome", obs["kind"] if obs["kind"] == "ok" else obs["cls"])
         run.dist("branch", classify(call, obs)[:6])
+        run.dist("representation", "%s/%s/%s" % (ds.get("unit"), ds.get("dtype"), ds.get("stamp")))
         run.dist("index_kind", ds["kind"])
         for sig, msg in oracle(ds, call, obs):
             run.violation(sig, "C20 %s: %s" % (call["which"], msg), case={"dataset": ds, "call": call},
